@@ -108,7 +108,10 @@ def gen_loaded(rng, small=False, allow_single=True):
             ld = Laplace_Load(a=(1.0, logu(rng, -9, -7)), b=(logu(rng, -1, 2), logu(rng, -8, -6)))
         form = rng.choice(['abs', 'abs', 'rel', 'allobj', 'all'])
         if form == 'abs':
-            for p in rng.sample(range(N), min(N, rng.randint(1, 2))):
+            ps = rng.sample(range(N), min(N, rng.randint(1, 2)))
+            if rng.random() < 0.25:
+                ps.append(ps[0])                 # the same load twice on one pulse (in series)
+            for p in ps:
                 m.register_load(ld, p)
         elif form == 'rel':
             w = rng.choice([g for g in m.geo if g.pulses] or [None])
